@@ -501,6 +501,10 @@ func CheckC09(e *Env) int {
 		{"star-dup-prevented", nil, true, false, `wire:"-"`, true},
 		{"by-name-other-prevented", []string{"A"}, false, false, `wire:"-"`, true},
 		{"literal-form", nil, false, true, "", false},
+		// ONE field named twice: a duplicate all the same (the literal would not compile)
+		{"same-name-twice", []string{"A", "A"}, false, false, "", false},
+		{"same-name-twice-apart", []string{"A", "C", "A"}, false, false, "", false},
+		{"same-name-three-times", []string{"A", "A", "A"}, false, false, `wire:"-"`, false},
 	} {
 		for ci, dk := range dupKinds {
 			otherPkg := ci%2 == 1
@@ -528,7 +532,11 @@ func CheckC09(e *Env) int {
 				st = b.Struct(s, v.star, v.sel...)
 			}
 			items := []*Item{ft, st}
-			if v.star || v.lit {
+			selC := false
+			for _, x := range v.sel {
+				selC = selC || x == "C"
+			}
+			if v.star || v.lit || selC {
 				items = append(items, fc)
 			}
 			b.Inj("Init", s, false, false, nil, refs(items...)...)
